@@ -1,6 +1,31 @@
 """Classification of Err exits on producer (seal / wrap / keygen) paths: T-ERREXIT."""
 from norm import fn as fmt_n
 
+def _aad_test(c, value):
+    """c == value is an emptiness test of the `aad` input, in any spelling (is_empty, slice pattern, len comparison):
+    True if it holds exactly for non-empty aad, False if it holds for the empty aad, None if c is not such a test."""
+    if isinstance(c, tuple) and len(c) == 3 and c[0] == "unop" and c[1] == "Not" and value in (0, 1):
+        return _aad_test(c[2], 1 - value)
+    if isinstance(c, tuple) and len(c) == 3 and c[0] == "call" and c[1].endswith("is_empty") and c[2] == (("in", "aad"),) and value in (0, 1):
+        return value == 0
+    if c == ("is_empty", ("in", "aad")) and value in (0, 1):
+        return value == 0
+    if isinstance(c, tuple) and len(c) == 4 and c[0] == "binop" and value in (0, 1):
+        import operator
+        ops = {"Eq": operator.eq, "Ne": operator.ne, "Gt": operator.gt, "Lt": operator.lt, "Ge": operator.ge, "Le": operator.le}
+        L = ("len", ("in", "aad"))
+        if c[1] in ops and L in (c[2], c[3]):
+            other = c[3] if c[2] == L else c[2]
+            if isinstance(other, tuple) and other[0] == "int":
+                def at(n):
+                    a, b = (n, other[1]) if c[2] == L else (other[1], n)
+                    return 1 if ops[c[1]](a, b) else 0
+                if at(0) != value and at(1) == value and at(2) == value and at(1 << 40) == value:
+                    return True
+                if at(0) == value:
+                    return False
+    return None
+
 def classify_err(run, r):
     """Class of an Err exit from the origin of its cause (the fallible term assumed Err on this path)."""
     cause = r.path.err_cause
@@ -9,8 +34,12 @@ def classify_err(run, r):
     if last is not None:
         c = run.norm.n(last["cond"])
         cs = repr(c)
-        if "is_empty" in cs and "'aad'" in cs and not (isinstance(last["cond"], tuple) and last["cond"][0] == "discr"):
-            return "aad-unsupported", cs
+        if not (isinstance(last["cond"], tuple) and last["cond"][0] == "discr"):
+            d = _aad_test(c, last["value"])
+            if d is True:
+                return "aad-unsupported", cs
+            if d is False:
+                return None, "Err exit for an EMPTY aad: " + cs[:200]
     if cause is None:
         return None, "no fallible cause recorded"
     n = run.norm.n(cause)
@@ -25,7 +54,51 @@ def classify_err(run, r):
 
 LIB_OK = ("aws_lc_rs::", "libsodium_rs::", "rsa::", "<SigningKey", "ed25519", "argon2::", "hkdf::", "pbkdf2::", "<XChaCha20Poly1305",
           "lc::SigningKey::sign", "lc::SigningKey::diffie_hellman", "lc::SigningKey::from_sec1_bytes", "lc::VerifyingKey::from_sec1_bytes",
-          "core::convert::num", "<impl SecretKey>::random", "core::num::<impl usize>::checked_sub", "ecdsa::", "elliptic_curve::", "sec1::", "<AffinePoint", "curve25519", "core::num::nonzero")
+          "core::convert::num", "<impl SecretKey>::random", "ecdsa::", "elliptic_curve::", "sec1::", "<AffinePoint", "curve25519", "core::num::nonzero")
+
+# Upper bounds on the length of library outputs (contracts). v1 PKE: big-endian bytes of an RSA ciphertext are at most the
+# modulus length, and every v1 PKE key decoder admits 4096-bit moduli only (decided by C10 R10.x RSA_BITS).
+LIB_LEN_MAX = [(("TOBE", "RSAENC"), 512)]
+
+def _lib_len_bound(t):
+    """t = len(X) with X a library output under a length contract -> the bound, else None."""
+    if isinstance(t, tuple) and len(t) == 2 and t[0] == "len" and isinstance(t[1], tuple):
+        x = t[1]
+        for (h0, h1), m in LIB_LEN_MAX:
+            if x and x[0] == h0 and len(x) > 1 and isinstance(x[1], tuple) and x[1] and x[1][0] == h1:
+                return m
+    return None
+
+def length_guard_class(n, value=None):
+    """A failure that says `a library output is longer than c`, in either idiom:
+         c.checked_sub(len X) is None                 (n = the checked_sub call)
+         if len X > c / c < len X / len X >= c+1 ...   (n = the binop, value = the branch taken to the Err)
+    -> ('statically-impossible', why) when the contract bound of X is <= c, ('value-dependent', why) otherwise, None if n is not of this shape."""
+    if isinstance(n, tuple) and n and n[0] == "call" and n[1].endswith("::checked_sub") and len(n[2]) == 2:
+        c, l = n[2]
+        m = _lib_len_bound(l)
+        if isinstance(c, tuple) and c[0] == "int" and m is not None:
+            if c[1] >= m:
+                return "statically-impossible", f"library output of at most {m} bytes subtracted from {c[1]}"
+            return "value-dependent", f"{c[1]}.checked_sub(len) fails for library outputs of up to {m} bytes"
+        return None
+    if isinstance(n, tuple) and n and n[0] == "binop" and len(n) == 4 and value in (0, 1):
+        op, a, b = n[1], n[2], n[3]
+        flip = {"Gt": "Lt", "Lt": "Gt", "Ge": "Le", "Le": "Ge"}
+        if op in flip and isinstance(a, tuple) and a and a[0] == "int":
+            op, a, b = flip[op], b, a
+        m = _lib_len_bound(a)
+        if m is None or not (isinstance(b, tuple) and b[0] == "int") or op not in ("Gt", "Ge", "Lt", "Le"):
+            return None
+        c = b[1]
+        if value == 0:      # Err on the false branch: negate
+            op = {"Gt": "Le", "Ge": "Lt", "Lt": "Ge", "Le": "Gt"}[op]
+        # Err iff len `op` c; impossible iff no len in [0, m] satisfies it
+        sat = {"Gt": m > c, "Ge": m >= c, "Lt": c > 0, "Le": True}[op]
+        if not sat:
+            return "statically-impossible", f"len {op} {c} cannot hold for a library output of at most {m} bytes"
+        return "value-dependent", f"Err when len {op} {c}, reachable for a library output of up to {m} bytes"
+    return None
 
 def classify_generic(run, r):
     """callee-reported / statically-impossible / value-dependent"""
@@ -38,6 +111,9 @@ def classify_generic(run, r):
         gc = repr(run.norm.n(g["cond"]))[:300] if g else "?"
         if "params" in gc or "is_multiple_of" in gc:
             return "param-validation", gc
+        lg = length_guard_class(run.norm.n(g["cond"]), g["value"]) if g else None
+        if lg:
+            return lg
         return "value-dependent", "explicit Err under guard " + gc
     if isinstance(root, tuple) and root:
         if root[0] == "split":
@@ -59,6 +135,9 @@ def classify_generic(run, r):
             return "callee-reported", nm
         if root[0] == "call":
             nm = root[1]
+            lg = length_guard_class(run.norm.n(root))
+            if lg:
+                return lg
             if any(nm.startswith(p) or p in nm[:40] for p in LIB_OK):
                 return "callee-reported", nm
             return "value-dependent", "Err derived from " + nm
@@ -68,6 +147,9 @@ def classify_generic(run, r):
             gc = repr(run.norm.n(g["cond"]))[:300] if g else "?"
             if "pw_wrap" in gc or "params" in gc:
                 return "param-validation", gc
+            lg = length_guard_class(run.norm.n(g["cond"]), g["value"]) if g else None
+            if lg:
+                return lg
             return "value-dependent", "explicit Err under guard " + gc
         if root[0] == "tryarray":
             return "value-dependent", "length test " + repr(root)[:200]
